@@ -96,8 +96,9 @@ func opList(v interface{}) []*operation.AnchoredOperation {
 		case string:
 			out = append(out, &operation.AnchoredOperation{UniqueSuffix: t})
 		case map[string]interface{}:
+			// the request names the transaction number: an unpublished operation is written without it
 			a := &operation.AnchoredOperation{Type: operation.Type(t["type"].(string)), TransactionTime: uint64(proto.Num(t["t"])),
-				TransactionNumber: uint64(proto.Num(t["n"])), UniqueSuffix: "sfx", OperationRequest: []byte("{}")}
+				TransactionNumber: uint64(proto.Num(t["n"])), UniqueSuffix: "sfx", OperationRequest: []byte(fmt.Sprintf(`{"n":%d}`, proto.Num(t["n"])))}
 			if cr, ok := t["cr"].(string); ok {
 				a.CanonicalReference = cr
 			}
